@@ -19,6 +19,10 @@ class Patterns(Monitor):
         self.commit_after_cancel = set()  # (batch, update)
         self.inserted = {}  # (batch, job) -> inserted state
         self.seen_committed = set()
+        # (batch, group) -> True when the group's own update was still uncommitted at the moment its cancellation was recorded.
+        # The unchanged service refuses such a cancel (cancel_job_group_in_db), so the recorded commit-after-cancel finding is
+        # about groups that were committed when they were cancelled; anything else is a different history and is not explained.
+        self.cancelled_while_uncommitted = {}
 
     def attach(self, runner):
         super().attach(runner)
@@ -27,6 +31,11 @@ class Patterns(Monitor):
         self.flags.setdefault(name, set()).add(scope)
 
     def on_commit(self, v):
+        for bg in v.cancelled:
+            if bg not in self.cancelled_while_uncommitted:
+                grp = v.groups.get(bg)
+                upd = v.updates.get((bg[0], grp['update_id'])) if grp else None
+                self.cancelled_while_uncommitted[bg] = bool(bg[1] != 0 and grp is not None and not (upd and upd['committed']))
         for k, j in v.jobs.items():
             b = j['batch_id']
             upd = v.updates.get((b, j['update_id']))
@@ -48,7 +57,9 @@ class Patterns(Monitor):
                             self.flag('dangling-parent-at-commit', ('job', k))
                             self.flag('dangling-parent-at-commit', ('batch', b))
                             self.flag('dangling-parent-at-commit', ('uic', v.batches[b]['user'], j['inst_coll']))
-                    if v.group_cancelled(b, j['job_group_id']):
+                    if v.group_cancelled(b, j['job_group_id']) and not any(
+                        self.cancelled_while_uncommitted.get((b, a)) for a in v.ancestors.get((b, j['job_group_id']), ()) if (b, a) in v.cancelled
+                    ):
                         self.commit_after_cancel.add((b, j['update_id']))
                         user = v.batches[b]['user']
                         self.flag('commit-after-cancel', ('uic', user, j['inst_coll']))
